@@ -5,10 +5,12 @@ CONSTANTS
   MaxBasis = 12
   MaxTone = 12
   MaxArrN = 5
+  Phases <- Q_Phases
   Wrong = FALSE
 INVARIANT InvLen
 INVARIANT InvRealPart
 INVARIANT InvAnalytic
+INVARIANT InvMix
 INVARIANT InvLinear
 INVARIANT InvAdd
 INVARIANT InvTone
